@@ -283,6 +283,19 @@ def canary_trace(chk, traces, rejected=()):
     chk.note(f"canary: corrupted trace (history one slot longer) rejected at line {line}")
 
 
+def encoder_setters(chk, rng, tier):
+    """Configuration-path independence of the encoders (step time, steps, frequency, refractory period incl. the
+    'derived from dt' mode, compensation): the setter graph of spec/EncoderCfgMC.tla (specified with C19) replayed on
+    real encoders - every reported attribute after every assignment, and the configuration a later dt assignment
+    leaves behind."""
+    from . import c19
+    quick = tier == "quick"
+    for name, consts, tick in [("exp", c19.cfg_consts("exp", depth=100), 0.5),
+                               ("exp-derived-comp", c19.cfg_consts("exp", derive0=True, comp0=True, depth=100), 0.25)]:
+        g = c19.cfg_graph(chk, "c14-" + name, consts)
+        c19.replay_cfg_graph(chk, g, consts, tick, rng, 2500 if quick else None)
+
+
 def run(tier: str, seed: int) -> int:
     chk = Check(PID, tier, seed)
     rng = random.Random(seed)
@@ -342,6 +355,7 @@ def run(tier: str, seed: int) -> int:
     validate_traces(chk, ftraces, site="user-floats")
     # extension of the specification beyond the listed property (DESIGN section 7, item 2)
     run_virtual_tensor(chk, rng, thorough)
+    encoder_setters(chk, rng, tier)
     return chk.finish()
 
 
